@@ -170,17 +170,23 @@ def gen_model(rng, t, profile):
 
 
 def gen_capital(rng, t, profile):
-    kind = profile.get("capital") or rng.choice(["default", "default", "ratio_dict", "ndarray", "series", "df_col", "df_row", "list"])
+    kind = profile.get("capital") or rng.choice(profile.get("capital_choices") or ["default", "default", "ratio_dict", "ndarray", "series", "df_col", "df_row", "list"])
     if kind == "default":
         return None, None
     inds, fds, Z, Y, x, va = table_sorted(t)
+    zero_cap = profile.get("zero_capital") and rng.random() < 0.7
     if kind == "ratio_dict":
         items = [[s, rng.choice([1.0, 2.5, 4.0, 6.0])] for s in t["sectors"]]
+        if zero_cap:
+            items[rng.randrange(len(items))][1] = 0.0       # a sector declared to own no capital
         ratio = {s: v for s, v in items}
         rng.shuffle(items)
         K = [va[k] * ratio[inds[k][1]] for k in range(len(inds))]
         return {"kind": "ratio_dict", "dict_items": items}, K
     K = [max(va[k], 0.05 * x[k]) * rng.uniform(1.0, 6.0) for k in range(len(inds))]
+    if zero_cap:
+        for k in rng.sample(range(len(inds)), rng.randint(1, 2)):
+            K[k] = 0.0                                       # industries owning no capital
     order = list(range(len(inds)))
     if kind in ("series", "df_col", "df_row") and (profile.get("shuffle_capital") or rng.random() < 0.5):
         rng.shuffle(order)
@@ -188,7 +194,7 @@ def gen_capital(rng, t, profile):
     return cap, K
 
 
-def _impact_pairs(rng, inds, K, conv, nmax=3, frac_hi=0.6, frac_lo=0.02):
+def _impact_pairs(rng, inds, K, conv, nmax=3, frac_hi=0.6, frac_lo=0.02, overkill=0.0, scale=1.0):
     n = rng.randint(1, min(nmax, len(inds)))
     cand = [k for k in range(len(inds)) if K[k] > 0]
     ks = rng.sample(cand, min(n, len(cand)))
@@ -196,6 +202,14 @@ def _impact_pairs(rng, inds, K, conv, nmax=3, frac_hi=0.6, frac_lo=0.02):
     for k in sorted(ks):
         frac = _logu(rng, frac_lo, frac_hi) if frac_lo < 0.01 else rng.uniform(frac_lo, frac_hi)
         pairs.append([list(inds[k]), K[k] * frac * conv])
+    if (overkill and rng.random() < overkill) or not pairs:
+        # malformed stream: more capital destroyed than the industry owns (must be rejected when
+        # the event occurs); industries owning no capital at all preferred when there are some
+        zeros = [k for k in range(len(inds)) if K[k] <= 0]
+        k = rng.choice(zeros) if zeros and rng.random() < 0.7 else rng.randrange(len(inds))
+        amount = K[k] * 3 * rng.uniform(1.02, 2.5) if K[k] > 0 else scale * _logu(rng, 1e-6, 1e-1)
+        pairs = [p for p in pairs if p[0] != list(inds[k])] + [[list(inds[k]), amount * conv]]
+        pairs.sort(key=lambda p: p[0])
     return pairs
 
 
@@ -209,6 +223,14 @@ def gen_event(rng, t, m, K, horizon, kind=None, profile=None):
     occ = rng.randint(1, max(1, (horizon - 2) // dt // 2)) * dt if dt > 1 else rng.randint(1, max(1, horizon // 2))
     occ = max(1, min(occ, horizon - 1))
     dur = rng.randint(1, max(1, min(6, horizon - occ)))
+    if dt > 1 and not profile.get("on_grid"):
+        u = rng.random()
+        if u < 0.15:
+            occ, dur = 1, 1                     # the documented default timing, whatever the step length
+        elif u < 0.45:
+            # occurrences and durations off the step grid
+            occ = rng.randint(1, max(1, horizon // 2))
+            dur = rng.randint(1, max(1, min(3 * dt, horizon - occ)))
     if profile.get("occ_max"):
         occ = rng.randint(1, min(profile["occ_max"], horizon - 1))
     if profile.get("rec_dur"):
@@ -220,7 +242,8 @@ def gen_event(rng, t, m, K, horizon, kind=None, profile=None):
         eff = 1 if emf is None else emf
         e["emf"] = emf
         conv = mu / eff  # event units per model unit
-        e["impact"] = _impact_pairs(rng, inds, K, conv, frac_hi=profile.get("frac_hi", 0.5), frac_lo=profile.get("frac_lo", 0.02))
+        e["impact"] = _impact_pairs(rng, inds, K, conv, frac_hi=profile.get("frac_hi", 0.5), frac_lo=profile.get("frac_lo", 0.02),
+                                    overkill=profile.get("overkill", 0.0), scale=max(x))
         if rng.random() < profile.get("p_house", 0.4):
             hh = rng.sample(fds, rng.randint(1, min(2, len(fds))))
             tot = sum(v for _, v in e["impact"])
@@ -293,6 +316,10 @@ PROFILES = {
     "nonreal": dict(events=(1, 2), kinds=["arbitrary", "arbitrary", "recovery"], horizon=(20, 35), inv_mode="short",
                     psi_choices=[0.3, 0.5, 0.8, 1.0], frac_hi=0.9, arb_hi=(0.6, 0.97), rec_tau=[20, 40], rec_dur=(4, 10),
                     occ_max=3, dt=1, sparsity="tiny_input", hit_tiny_suppliers=1.0),
+    # capital specifications with industries owning nothing, and events destroying more than is owned
+    "overkill": dict(events=(1, 3), kinds=["rebuild", "recovery", "recovery"], horizon=(10, 20), overkill=0.6, zero_capital=True,
+                     sparsity_choices=["dense", "zero_output", "zero_output", "random_zeros", "partial_final"],
+                     capital_choices=["default", "ratio_dict", "ndarray", "series", "df_col", "list"]),
     "shortage": dict(events=(1, 2), kinds=["recovery", "arbitrary", "rebuild"], horizon=(15, 30),
                      inv_mode="short", psi_choices=[0.1, 0.5], frac_hi=0.9,
                      sparsity_choices=["dense", "tiny_input", "random_zeros", "tiny_input", "partial_final"], hit_tiny_suppliers=True),
